@@ -25,6 +25,9 @@ pub const AVAIL_CAP: usize = 10;
 /// The compiled program is stopped (by a panic raised in the watchdog sink) when it runs this many
 /// ticks more than predicted inside one `run_available_sync` call.
 pub const RUNAWAY_SLACK: u64 = 6;
+/// Upper bound on the sink items of one run (predictions are far below: streams are capped at
+/// `MAX_STREAM` per tick).
+pub const SINK_LOG_CAP: usize = 200_000;
 
 // ---------------------------------------------------------------------------------------------
 // Plan (the schedule)
@@ -120,7 +123,15 @@ pub struct Log(pub Rc<RefCell<RunLog>>);
 impl Log {
     #[inline]
     pub fn sink(&self, id: usize, tick: u64, x: It) {
-        self.0.borrow_mut().sink.push((id, tick, x));
+        let mut l = self.0.borrow_mut();
+        l.sink.push((id, tick, x));
+        if l.sink.len() > SINK_LOG_CAP {
+            // a compiled program that keeps producing output (e.g. a loop block that never stops):
+            // stop it the same way the per-tick watchdog does
+            l.runaway = true;
+            drop(l);
+            panic!("e3 watchdog: a compiled program produced more than {SINK_LOG_CAP} sink items in one run");
+        }
     }
     #[inline]
     pub fn inspect(&self, id: usize, tick: u64, x: It) {
@@ -277,7 +288,7 @@ fn multiset(v: &[It]) -> BTreeMap<It, usize> {
 }
 
 /// Compare one variant's observation with the prediction. Returns `(class suffix, detail)`.
-pub fn compare(prog: &Program, pred: &Predicted, obs: &Observed) -> Option<(String, String)> {
+pub fn compare(prog: &Program, plan: &Plan, pred: &Predicted, obs: &Observed) -> Option<(String, String)> {
     // tick counter: after each step the counter must equal the number of predicted ticks so far
     let mut t = 0u64;
     for (si, ticks) in pred.steps.iter().enumerate() {
@@ -285,10 +296,16 @@ pub fn compare(prog: &Program, pred: &Predicted, obs: &Observed) -> Option<(Stri
         match obs.tick_after.get(si) {
             Some(&got) if got == t => {}
             Some(&got) => {
-                let what = if ticks.len() > 1 || got > t { "run_available_tick_count" } else { "tick_counter" };
+                let avail = plan.steps.get(si).is_some_and(|s| s.avail);
+                let what = if avail { "run_available_tick_count" } else { "tick_counter" };
                 return Some((
                     format!("tick_count/{what}"),
-                    format!("after step {si} (avail={}) current_tick()={got}, expected {t}{}", ticks.len() > 1, if obs.runaway { " (stopped by watchdog)" } else { "" }),
+                    format!(
+                        "after step {si} ({}) current_tick()={got}, expected {t} ({} ticks predicted for this step){}",
+                        if avail { "run_available_sync" } else { "run_tick_sync" },
+                        ticks.len(),
+                        if obs.runaway { " (stopped by watchdog)" } else { "" }
+                    ),
                 ));
             }
             None => return Some(("tick_count/missing_step".into(), format!("step {si} not executed"))),
@@ -364,12 +381,21 @@ pub fn compare(prog: &Program, pred: &Predicted, obs: &Observed) -> Option<(Stri
                             ));
                         }
                     }
-                    Order::Bag => {
+                    Order::Bag | Order::KeySorted(_) => {
                         if multiset(&g) != multiset(want) {
                             return Some((
                                 "tick_output/items".into(),
                                 format!("tick {} sink {sid} (multiset): got {:?}, expected {:?}", to.tick, g, want),
                             ));
+                        }
+                        if let Order::KeySorted(f) = prog.sink_order[sid] {
+                            let proj = |x: &It| if f % 2 == 0 { x.0 as i32 } else { x.1 as i32 };
+                            if g.windows(2).any(|w| proj(&w[0]) > proj(&w[1])) {
+                                return Some((
+                                    "tick_output/order".into(),
+                                    format!("tick {} sink {sid} (sorted by {}): got {:?}", to.tick, if f % 2 == 0 { "key" } else { "value" }, g),
+                                ));
+                            }
                         }
                     }
                 }
@@ -394,18 +420,20 @@ pub fn compare(prog: &Program, pred: &Predicted, obs: &Observed) -> Option<(Stri
 pub type ExecFn = fn(&Plan, &[usize]) -> Observed;
 
 pub struct Compiled {
+    /// scenario name (`p<index>`)
+    pub name: String,
     /// (variant name, program); entry 0 is the base program the interpreter runs
     pub progs: Vec<(String, Program)>,
 }
 impl Compiled {
-    pub fn from_json(variants: &[(&str, &str)]) -> Compiled {
-        Compiled { progs: variants.iter().map(|(n, j)| (n.to_string(), Program::from_json(j).expect("embedded AST"))).collect() }
+    pub fn from_json(name: &str, variants: &[(&str, &str)]) -> Compiled {
+        Compiled { name: name.to_string(), progs: variants.iter().map(|(n, j)| (n.to_string(), Program::from_json(j).expect("embedded AST"))).collect() }
     }
 }
 
 /// One simulated run of one generated program: draw the schedule, predict, execute every compiled
 /// variant under the same schedule, compare.
-pub fn run_program(sim: &mut Sim, c: &Compiled, variants: &[(&'static str, ExecFn)]) -> Outcome {
+pub fn run_program(sim: &mut Sim, c: &'static Compiled, variants: &[(&'static str, ExecFn)]) -> Outcome {
     let prog = &c.progs[0].1;
     if sim.verbose {
         sim.event(1, || format!("PROGRAM kind={} ops={:?}", prog.kind, prog.op_names()));
@@ -436,10 +464,13 @@ pub fn run_program(sim: &mut Sim, c: &Compiled, variants: &[(&'static str, ExecF
         }
     }
     sim.state(simcore::fnv_str(&format!("{:?}", pred.steps.iter().flatten().map(|t| &t.sinks).collect::<Vec<_>>())));
+    // a compiled program that never returns (livelock inside a tick) cannot be interrupted from
+    // inside: the watchdog thread reports it from outside (see `watch`)
+    let _guard = crate::watch::enter(c, &sim.trace, &plan);
     for (vi, (vname, exec)) in variants.iter().enumerate() {
         let obs = exec(&plan, &ticks_per_step);
         sim.event(0x30 + obs.log.sink.len() as u64, || format!("variant {vi} ({vname}): tick_after={:?} sink log {:?} reference log {:?}", obs.tick_after, obs.log.sink, obs.log.refs));
-        if let Some((class, detail)) = compare(prog, &pred, &obs) {
+        if let Some((class, detail)) = compare(prog, &plan, &pred, &obs) {
             let class = if vi == 0 { format!("{class}/{}", prog.kind) } else { format!("{class}/{}/variant_{vname}", prog.kind) };
             return Outcome::fail(Violation::new(class, format!("variant {vi} ({vname}): {detail}")), total_ticks as u64);
         }
